@@ -101,13 +101,17 @@ pub fn check(c: &Case, stats: &mut Stats) -> CheckResult {
     let n = c.sets.len();
     ensure!(n >= 2 && c.method < 4 && c.table.len() == n * n, "harness/bad-case", "malformed case");
     let contents: Vec<BTreeSet<u32>> = c.sets.iter().map(|s| s.iter().copied().collect()).collect();
-    let mut all = BTreeSet::new();
     for s in &contents {
-        ensure!(s.iter().all(|t| (1..=NT_MAX).contains(t) && all.insert(*t)), "harness/bad-case", "input sets must be disjoint, over 1..=700");
+        ensure!(s.iter().all(|t| (1..=NT_MAX).contains(t)), "harness/bad-case", "input sets are over the terms 1..=700");
     }
     // at most one empty input (two would be indistinguishable for the table lookup by content)
     ensure!(contents.iter().filter(|s| s.is_empty()).count() <= 1, "harness/bad-case", "at most one empty input set");
     let by_content: BTreeMap<BTreeSet<u32>, usize> = contents.iter().enumerate().map(|(i, s)| (s.clone(), i)).collect();
+    // the inputs may overlap but must differ (the table is looked up by content)
+    ensure!(by_content.len() == n, "harness/bad-case", "input sets must have pairwise different contents");
+    if (0..n).any(|i| (i + 1..n).any(|j| contents[i].intersection(&contents[j]).next().is_some())) {
+        stats.label("overlapping-input-sets");
+    }
     let method = c.method;
     let mname = METHODS[method as usize];
     // log of every callback invocation: the pairs (content a, content b) it was asked for
@@ -132,10 +136,18 @@ pub fn check(c: &Case, stats: &mut Stats) -> CheckResult {
     let seed = c.seed;
     let shift = c.shift;
     let inf = (c.inf_rate, c.inf_neg, scale);
+    // a set handed to the callback must be a set: strictly ascending iteration, len() = number of terms
+    let malformed: RefCell<Option<String>> = RefCell::new(None);
     let distance = |combs: Combinations<HpoSet<'_>>| -> Vec<f32> {
         let mut asked = Vec::new();
         let mut out = Vec::new();
         for (a, b) in combs {
+            for s in [&a, &b] {
+                let v: Vec<u32> = s.iter().map(|t| t.id().as_u32()).collect();
+                if v.windows(2).any(|w| w[0] >= w[1]) || v.len() != s.len() {
+                    malformed.borrow_mut().get_or_insert(format!("{v:?} (len() = {})", s.len()));
+                }
+            }
             let ca: BTreeSet<u32> = a.iter().map(|t| t.id().as_u32()).collect();
             let cb: BTreeSet<u32> = b.iter().map(|t| t.id().as_u32()).collect();
             let d = if method == 3 {
@@ -194,6 +206,9 @@ pub fn check(c: &Case, stats: &mut Stats) -> CheckResult {
         Ok(v) => v,
         Err(p) => return fail(format!("{mname}/panic"), format!("Linkage::{mname} on {n} sets panicked: {p}")),
     };
+    if let Some(m) = malformed.into_inner() {
+        return fail(format!("{mname}/callback-set-malformed"), format!("the distance callback was handed a set that is not a set (repeated or unordered terms): {m}"));
+    }
     let same = |x: &Vec<(usize, usize, f32, usize)>| x.len() == clusters.len() && x.iter().zip(&clusters).all(|(a, b)| a.0 == b.0 && a.1 == b.1 && a.2.to_bits() == b.2.to_bits() && a.3 == b.3);
     ensure!(same(&via_iter) && same(&via_ref) && same(&via_into), format!("{mname}/iterators-disagree"), "cluster() / iter() / &linkage / into_cluster() yield different sequences");
     // ---- structure
@@ -330,10 +345,41 @@ fn strategy(tier: Tier) -> BoxedStrategy<Case> {
                 }
                 sets.push(s);
             }
+            // in one case of four some inputs share terms (each keeps a term of its own, so contents
+            // stay different): the largest, the smallest or a middle term of another input
+            let disjoint = sets.clone();
+            if extra[3] % 4 == 0 {
+                let donors = 1 + (extra[4] as usize % 3);
+                for d in 0..donors {
+                    let from = (extra[5 + d] as usize * 5 + d) % n;
+                    let to = (from + 1 + extra[8 + d] as usize) % n;
+                    if from != to && !sets[from].is_empty() {
+                        let mut src = sets[from].clone();
+                        src.sort_unstable();
+                        let t = match extra[11 + d] % 3 {
+                            0 => src[src.len() - 1],
+                            1 => src[0],
+                            _ => src[src.len() / 2],
+                        };
+                        if !sets[to].contains(&t) {
+                            sets[to].push(t);
+                        }
+                    }
+                }
+            }
             // one input in ten cases is the empty set
             if extra[0] % 10 == 0 {
                 let j = (extra[1] as usize * 7 + extra[2] as usize) % n;
                 sets[j].clear();
+            }
+            // (mutual donations can make two contents equal: fall back to the disjoint sets)
+            let distinct: BTreeSet<BTreeSet<u32>> = sets.iter().map(|s| s.iter().copied().collect()).collect();
+            if distinct.len() != n {
+                let cleared: Vec<usize> = (0..n).filter(|i| sets[*i].is_empty()).collect();
+                sets = disjoint;
+                for i in cleared {
+                    sets[i].clear();
+                }
             }
             // symmetric table; distinct values unless `coarse` (then ties are frequent)
             let mut table = vec![0.0f32; n * n];
@@ -402,7 +448,7 @@ impl Property for C17 {
         "C17"
     }
     fn rule(&self) -> String {
-        "Generated: n in 2..=24 (thorough 40) pairwise disjoint input sets (mostly singletons, some with 2-3 terms, in one case of ten one input is the empty set) over a flat 96-term ontology, handed over as a Vec or as iterators without an exact size hint (filter, chain, map_while); for single/complete/average a generated symmetric table of initial distances (distinct values, or few values so that ties are frequent; shifted so that distances are all positive, mixed-sign, all negative or touch zero; in one case of five some pairs - for n <= 6 sometimes all - are infinitely far apart, +inf or -inf but never both; in one case of three all distances are scaled by 10^e, e in -30..=30, so that they lie far below f32::EPSILON or far above 1); for union a symmetric pseudo-random distance that is a function of the two sets' contents, so merged sets get fresh values. Oracle = validity predicate simulated along the library's own merge choices (ties admit several dendrograms): exactly n-1 merges; each merge joins two live, different clusters (inputs or earlier merges n+k), so every input and intermediate cluster is merged exactly once and one cluster remains; the reported distance equals the pair's current distance bit for bit and no live pair is strictly closer; distances to the new cluster follow the method (min / max / mean of the two parts in f32 / content function of the union); len adds up and is n at the last merge; indicies() is a permutation of 0..n; cluster(), iter(), &linkage and into_cluster() agree; the first callback invocation asks every unordered pair of inputs exactly once (later invocations, which also pair the new set with itself, are not constrained). evaluations = clusterings. Non-trivial = n >= 4 and some merge joins two earlier clusters; distinct by hash of the case.".into()
+        "Generated: n in 2..=24 (thorough 40) input sets with pairwise different contents, in one case of four overlapping (mostly singletons, some with 2-3 terms, in one case of ten one input is the empty set) over a flat 96-term ontology, handed over as a Vec or as iterators without an exact size hint (filter, chain, map_while); for single/complete/average a generated symmetric table of initial distances (distinct values, or few values so that ties are frequent; shifted so that distances are all positive, mixed-sign, all negative or touch zero; in one case of five some pairs - for n <= 6 sometimes all - are infinitely far apart, +inf or -inf but never both; in one case of three all distances are scaled by 10^e, e in -30..=30, so that they lie far below f32::EPSILON or far above 1); for union a symmetric pseudo-random distance that is a function of the two sets' contents, so merged sets get fresh values. Oracle = validity predicate simulated along the library's own merge choices (ties admit several dendrograms): exactly n-1 merges; each merge joins two live, different clusters (inputs or earlier merges n+k), so every input and intermediate cluster is merged exactly once and one cluster remains; the reported distance equals the pair's current distance bit for bit and no live pair is strictly closer; distances to the new cluster follow the method (min / max / mean of the two parts in f32 / content function of the union); len adds up and is n at the last merge; indicies() is a permutation of 0..n; cluster(), iter(), &linkage and into_cluster() agree; the first callback invocation asks every unordered pair of inputs exactly once (later invocations, which also pair the new set with itself, are not constrained). evaluations = clusterings. Non-trivial = n >= 4 and some merge joins two earlier clusters; distinct by hash of the case.".into()
     }
     fn assumptions(&self) -> Vec<String> {
         vec![
@@ -417,7 +463,7 @@ impl Property for C17 {
         }
     }
     fn required_labels(&self, _tier: Tier) -> Vec<&'static str> {
-        vec!["nontrivial", "single", "complete", "average", "union", "tie", "multi-term-inputs", "empty-input-set", "input-iterator-without-exact-size", "all-merge-distances-negative", "mixed-sign-distances", "infinite-distance", "all-distances-infinite", "distance-below-epsilon", "distance-above-1e9", "inputs>255"]
+        vec!["nontrivial", "single", "complete", "average", "union", "tie", "multi-term-inputs", "empty-input-set", "input-iterator-without-exact-size", "all-merge-distances-negative", "mixed-sign-distances", "infinite-distance", "all-distances-infinite", "distance-below-epsilon", "distance-above-1e9", "inputs>255", "overlapping-input-sets"]
     }
     fn run_generated(&self, tier: Tier, seed: u64, n: u64, stats: &mut Stats) -> Option<(Value, Failure)> {
         run_typed(strategy(tier), seed, n, stats, check)
